@@ -396,14 +396,23 @@ def check_unknown(ctx, rule):
     for which, fn_, tags in (("message", f, ("fooBar", "GetProperties", "getProperty", "getPropertiesX", "")), ("part", fp, ("fooPart", "OneText", "oneTex", "oneTextX", ""))):
         bad = None
         for tag in tags:
-            def run_unknown(it: Interp, fn_=fn_, tag=tag, which=which):
-                seed_registry(it, p, regs)
-                return it.run_function(Fn(fn_, Cls(base if which == "message" else part_base(p))), [xml_element(tag, {"name": "x", "device": "d", "version": "1.7"}, "t")], {})
+            for history in ("fresh", "after-valid"):
+                def run_unknown(it: Interp, fn_=fn_, tag=tag, which=which, history=history):
+                    seed_registry(it, p, regs)
+                    target = Cls(base if which == "message" else part_base(p))
+                    if history == "after-valid":
+                        # what was parsed before must not matter: valid elements of two kinds are parsed first (a lookup that
+                        # remembers its last answer would hand it out for the unknown tag)
+                        warm = [xml_element("getProperties", {"version": "1.7"}, None), xml_element("delProperty", {"device": "d"}, None)] if which == "message" else [xml_element("oneSwitch", {"name": "x"}, "On"), xml_element("oneText", {"name": "x"}, "t")]
+                        for w_ in warm:
+                            it.run_function(Fn(fn_, target), [w_], {})
+                        del it.events[:]
+                    return it.run_function(Fn(fn_, target), [xml_element(tag, {"name": "x", "device": "d", "version": "1.7"}, "t")], {})
 
-            paths = explore(p, run_unknown, opts)
-            ctx.paths_enumerated += len(paths)
-            if not (len(paths) == 1 and paths[0].outcome == "raise"):
-                bad = tag
+                paths = explore(p, run_unknown, opts)
+                ctx.paths_enumerated += len(paths)
+                if not (len(paths) == 1 and paths[0].outcome == "raise"):
+                    bad = tag + (" (after valid elements were parsed)" if history == "after-valid" else "")
         ctx.check(bad is None, rule, fn_.short + "[unknown tag]", f"{len(tags)} unknown / near-miss tags all raise", f"an element with the unknown {which} tag <{bad}> is not rejected", fi=fn_, text=f"unknown-tag:{which}", witness=f"<{bad} name='x'/>")
 
 
